@@ -50,6 +50,51 @@ OBLIGATIONS = {
     ],
 }
 
+OBLIGATIONS.update({
+    'C02': [
+        ('header::ProtectedHeader::from_cbor_bstr', 'body'), ('header::ProtectedHeader::from_cbor_bstr_nested', 'body'),
+        ('header::ProtectedHeader::cbor_bstr', 'body'), ('header::ProtectedHeader::from_cbor_value', 'body'), ('header::ProtectedHeader::to_cbor_value', 'body'),
+        ('header::Header::from_cbor_value_nested', 'body'), ('sign::CoseSignature::from_cbor_value_nested', 'body'),
+        ('sign::*::from_cbor_value', 'body'), ('mac::*::from_cbor_value', 'body'), ('encrypt::*::from_cbor_value', 'body'),
+        ('sign::*::to_cbor_value', 'body'), ('mac::*::to_cbor_value', 'body'), ('encrypt::*::to_cbor_value', 'body'),
+        ('sign::sig_structure_data', 'body'), ('mac::mac_structure_data', 'body'), ('encrypt::enc_structure_data', 'body'),
+        ('*Builder::protected', 'body'),
+        ('vstubs::check_*', 'body'),
+    ],
+    'C09': [
+        ('sign::CoseSign1::from_cbor_value', 'body'), ('sign::CoseSign::from_cbor_value', 'body'), ('sign::CoseSignature::from_cbor_value', 'body'),
+        ('sign::CoseSignature::from_cbor_value_nested', 'body'),
+        ('mac::CoseMac::from_cbor_value', 'body'), ('mac::CoseMac0::from_cbor_value', 'body'),
+        ('encrypt::CoseEncrypt::from_cbor_value', 'body'), ('encrypt::CoseEncrypt0::from_cbor_value', 'body'), ('encrypt::CoseRecipient::from_cbor_value', 'body'),
+        ('header::ProtectedHeader::from_cbor_bstr', 'body'), ('header::ProtectedHeader::from_cbor_bstr_nested', 'body'),
+        ('header::Header::from_cbor_value', 'body'), ('header::Header::from_cbor_value_nested', 'body'),
+        ('value::Value::try_as_*', 'body'), ('vstubs::check_recipient_from_cbor_value_stub', 'body'),
+        ('common::read_to_value', 'body'),
+    ],
+    'C13': [
+        ('common::read_to_value', 'body'), ('common::CborSerializable::from_slice', 'body'), ('common::CborSerializable::to_vec', 'body'),
+        ('common::TaggedCborSerializable::from_tagged_slice', 'body'), ('common::TaggedCborSerializable::to_tagged_vec', 'body'),
+        ('header::ProtectedHeader::from_cbor_bstr_nested', 'body'),
+        ('vlemmas::lemma_suffix_is_extraneous', 'lemma'), ('vlemmas::lemma_proper_prefix_rejected', 'lemma'),
+    ],
+    'C14': [
+        ('common::TaggedCborSerializable::from_tagged_slice', 'body'), ('common::TaggedCborSerializable::to_tagged_vec', 'body'),
+        ('value::Value::try_as_tag', 'body'), ('value::Value::try_as_array', 'body'),
+        ('vlemmas::lemma_untagged_rejects_tag', 'lemma'), ('vlemmas::lemma_double_tag_rejected', 'lemma'),
+        ('sign::CoseSign::from_cbor_value', 'body'), ('sign::CoseSign1::from_cbor_value', 'body'), ('mac::CoseMac::from_cbor_value', 'body'),
+        ('mac::CoseMac0::from_cbor_value', 'body'), ('encrypt::CoseEncrypt::from_cbor_value', 'body'), ('encrypt::CoseEncrypt0::from_cbor_value', 'body'),
+        ('voracle::oracle_CborTag', 'lemma'),
+        ('proofs::tag_consts', 'kani'), ('registry_proofs::registry_CborTag', 'kani'),
+    ],
+    'C17': [
+        ('iana::*::from_i64', 'body'), ('iana::*::to_i64', 'body'), ('iana::*::is_private', 'body'), ('iana::*::lemma_enum_laws', 'lemma'),
+        ('voracle::oracle_*', 'lemma'),
+        ('common::Label::from_cbor_value', 'body'), ('common::RegisteredLabel::from_cbor_value', 'body'), ('common::RegisteredLabelWithPrivate::from_cbor_value', 'body'),
+        ('common::Label::to_cbor_value', 'body'), ('common::RegisteredLabel::to_cbor_value', 'body'), ('common::RegisteredLabelWithPrivate::to_cbor_value', 'body'),
+        ('registry_proofs::registry_*', 'kani'), ('proofs::private_ranges', 'kani'),
+    ],
+})
+
 # items that must FAIL verification (vacuity / soundness canaries), checked on every run
 MUST_FAIL = ['vcanary::canary_false', 'vcanary::canary_axioms']
 
